@@ -62,6 +62,15 @@ func (x *Exec) doCall(st *State, fr *Frame, in ssa.Instruction, call *ssa.CallCo
 	x.callSiteObligations(st, fr, in, call, args)
 	cname := calleeName(call)
 	st.calls[cname]++
+	// per call site: calls("f@k"), returns("f@k"), lastresult("f@k") speak of the k-th call site of f in
+	// source order (top frame only), for functions that call the same callee for different purposes
+	siteName := ""
+	if fr.parent == nil {
+		if ord := x.eng.calleeOrdinal(fr.fn, in, cname); ord > 0 {
+			siteName = cname + "@" + strconv.Itoa(ord)
+			st.calls[siteName]++
+		}
+	}
 	{
 		k0 := k
 		k = func(s2 *State, o Outcome) {
@@ -70,12 +79,18 @@ func (x *Exec) doCall(st *State, fr *Frame, in ssa.Instruction, call *ssa.CallCo
 					s2.rets = map[string]int{}
 				}
 				s2.rets[cname]++
+				if siteName != "" {
+					s2.rets[siteName]++
+				}
 			}
 			if !o.Panic && len(o.Vals) > 0 {
 				if s2.lastRes == nil {
 					s2.lastRes = map[string]Val{}
 				}
 				s2.lastRes[cname] = o.Vals[0]
+				if siteName != "" {
+					s2.lastRes[siteName] = o.Vals[0]
+				}
 				for i := 1; i < len(o.Vals); i++ {
 					s2.lastRes[cname+"#"+strconv.Itoa(i)] = o.Vals[i]
 				}
